@@ -21,6 +21,7 @@ mod c10;
 mod c11;
 mod c12;
 mod c13;
+mod c13meta;
 mod c14;
 mod c15;
 mod c16;
